@@ -46,18 +46,9 @@ theorem C04_flow_names (k : Str) :
     (namesEndFunctionCommand.contains k = true → resolveCmd {} k = some .endFunction) ∧
     (namesReturnCommand.contains k = true → resolveCmd {} k = some .returnC) ∧
     (k = endWord → resolveCmd {} k = some .endC) := by
-  refine ⟨?_, ?_, ?_, ?_, ?_, ?_, ?_, ?_, ?_, ?_, ?_, ?_⟩
-  · exact forall_contains (by decide) k
-  · exact forall_contains (by decide) k
-  · exact forall_contains (by decide) k
-  · exact forall_contains (by decide) k
-  · exact forall_contains (by decide) k
-  · exact forall_contains (by decide) k
-  · exact forall_contains (by decide) k
-  · exact forall_contains (by decide) k
-  · exact forall_contains (by decide) k
-  · exact forall_contains (by decide) k
-  · exact forall_contains (by decide) k
-  · rintro rfl; decide
+  exact ⟨resolveCmd_ifKw k, resolveCmd_elifKw k, resolveCmd_elseKw k, resolveCmd_endIfKw k,
+    resolveCmd_whileKw k, resolveCmd_endWhileKw k, resolveCmd_forKw k, resolveCmd_endForKw k,
+    resolveCmd_fnKw k, resolveCmd_endFnKw k, resolveCmd_returnKw k,
+    fun h => h ▸ resolveCmd_endWord⟩
 
 end Duck
